@@ -81,14 +81,19 @@ def run(ctx):
                 rdirs.append(common.REPO + "/inference")
             templ = os.path.join(common.VERIF, "corpus", "c17")
             runs = [(d, []) for d in rdirs] + [(templ, ["-flag", "experimental-anonymous-function=true"])] * (6 if ctx.tier == "quick" else 30)
-            rdirs = rdirs + [templ]
+            # struct-init summaries shared by the analyses of all callers of a callee (nested field writes, many callers)
+            sinit = os.path.join(common.VERIF, "corpus", "c16")
+            for fl in ("experimental-struct-init-v2=true", "experimental-struct-init=true"):
+                runs += [(sinit, ["-flag", fl])] * (3 if ctx.tier == "quick" else 15)
+                runs += [(d, ["-flag", fl]) for d in rdirs[:2]]
+            rdirs = rdirs + [templ, sinit]
             for d, extra in runs:
                 rc2, o2, e2 = common.sh2([os.path.join(common.BIN, "harness_race"), "analyze", "-dir", d] + extra + ["./..."], timeout=1800)
                 if rc2 != 0 and "DATA RACE" not in e2 + o2:
                     races.append("%s: the -race harness failed: %s" % (d, (e2 + o2)[-600:]))
                 if "DATA RACE" in e2 or "DATA RACE" in o2:
                     races.append("%s: %s" % (d, (e2 + o2)[:1500]))
-            ctx.obligation("race detector: the harness built with -race analysing the corpora (and, with -experimental-anonymous-function, the templ corpus, repeatedly) reports no data race", not races)
+            ctx.obligation("race detector: the harness built with -race analysing the corpora (and, with -experimental-anonymous-function, the templ corpus, with the struct-init flags a callee writing nested fields with 24 callers, repeatedly) reports no data race", not races)
             for r in races[:2]:
                 ctx.violation("race", "C16 fails on the real tool: data race reported:\n%s" % r)
             shutil.rmtree(busy, ignore_errors=True)
